@@ -5,19 +5,36 @@
 // One ndjson event per public call, logged at its return, with the whole window read back
 // through operator() and the reported index offset.
 #include "vh.hpp"
+#include <string>
 #include "romea_core_common/containers/grid/WrappableGrid.hpp"
 
 using namespace romea::core;
 
-template<size_t DIM>
+// cell types: int, and a type with a real move constructor and heap storage (a moved-from or default cell reads -777777)
+template<class T> struct Cell;
+template<> struct Cell<int> {static int to(int v) {return v;} static int from(const int & c) {return c;}};
+template<> struct Cell<std::string>
+{
+  static std::string to(int v) {return "cell-value-with-heap-storage-" + std::to_string(v);}
+  static int from(const std::string & c)
+  {
+    const std::string pre = "cell-value-with-heap-storage-";
+    if (c.compare(0, pre.size(), pre) != 0 || c.size() == pre.size()) {return -777777;}
+    return std::atoi(c.c_str() + pre.size());
+  }
+};
+
+template<size_t DIM, class T = int>
 struct Obj
 {
-  using G = WrappableGrid<int, DIM>;
+  using G = WrappableGrid<T, DIM>;
+  using B = Grid<T, DIM>;
   using CI = typename G::CellIndexes;
   using CO = typename G::CellIndexesOffset;
   G g;
   std::vector<int> n;
-  explicit Obj(const std::vector<int> & nn) : g(mk(nn)), n(nn) {}
+  bool viaBase = false;        // cells are read and written through a reference to the base class Grid<T, DIM>
+  explicit Obj(const std::vector<int> & nn, bool vb = false) : g(mk(nn)), n(nn), viaBase(vb) {}
   static CI mk(const std::vector<int> & v) {CI c; for (size_t a = 0; a < DIM; ++a) {c[a] = v[a];} return c;}
   size_t ncells() const {size_t p = 1; for (int x : n) {p *= x;} return p;}
   CI coord(size_t k) const
@@ -26,12 +43,14 @@ struct Obj
     for (size_t a = 0; a < DIM; ++a) {c[a] = k % n[a]; k /= n[a];}
     return c;
   }
+  T & cell(const CI & c) {if (viaBase) {B & b = g; return b(c);} return g(c);}
   std::vector<int> window()
   {
     std::vector<int> w;
     // read through the const accessor: observing the grid must not be a write access
     const G & cg = g;
-    for (size_t k = 0; k < ncells(); ++k) {w.push_back(cg(coord(k)));}
+    const B & cb = g;
+    for (size_t k = 0; k < ncells(); ++k) {w.push_back(Cell<T>::from(viaBase ? cb(coord(k)) : cg(coord(k))));}
     return w;
   }
   std::vector<long long> offset()
@@ -43,22 +62,22 @@ struct Obj
   }
   void init(const std::vector<int> & contents)
   {
-    for (size_t k = 0; k < ncells(); ++k) {g(coord(k)) = contents[k];}
+    for (size_t k = 0; k < ncells(); ++k) {cell(coord(k)) = Cell<T>::to(contents[k]);}
   }
   std::string translate(const std::vector<int> & d, int e)
   {
     CO o; for (size_t a = 0; a < DIM; ++a) {o[a] = d[a];}
-    g.translate(o, e);
+    g.translate(o, Cell<T>::to(e));
     return vh::Ev("translate").vec("d", d).i("empty", e).vec("win", window()).vec("off", offset()).done();
   }
   std::string write(const std::vector<int> & i, int v)
   {
-    g(mk(i)) = v;
+    cell(mk(i)) = Cell<T>::to(v);
     return vh::Ev("write").vec("i", i).i("v", v).vec("win", window()).vec("off", offset()).done();
   }
   std::string fill(int v)
   {
-    g.setValue(v);
+    if (viaBase) {B & b = g; b.setValue(Cell<T>::to(v));} else {g.setValue(Cell<T>::to(v));}
     return vh::Ev("fill").i("v", v).vec("win", window()).vec("off", offset()).done();
   }
 };
@@ -69,12 +88,12 @@ static std::string resetLine(int dim, const std::vector<int> & n, const std::vec
 }
 
 // script lines:  R dim n.. | I v.. | T d.. e | W i.. v | F v | X maxoff-per-axis-rule empties.. ; wvals..
-template<size_t DIM>
-static size_t runExec(const std::vector<std::vector<std::string>> & sc, size_t at, vh::Out & out)
+template<size_t DIM, class T>
+static size_t runExecT(const std::vector<std::vector<std::string>> & sc, size_t at, vh::Out & out, bool viaBase)
 {
   std::vector<int> n;
   for (size_t a = 0; a < DIM; ++a) {n.push_back(vh::I(sc[at][2 + a]));}
-  Obj<DIM> o(n);
+  Obj<DIM, T> o(n, viaBase);
   std::vector<int> init;
   ++at;
   for (size_t k = 1; k < sc[at].size(); ++k) {init.push_back(vh::I(sc[at][k]));}
@@ -107,20 +126,20 @@ static size_t runExec(const std::vector<std::vector<std::string>> & sc, size_t a
         long long c = code;
         for (size_t a = 0; a < DIM; ++a) {int r = 2 * (n[a] + 1) + 1; d[a] = (int)(c % r) - (n[a] + 1); c /= r;}
         for (int e : empties) {
-          Obj<DIM> cp = o;
+          Obj<DIM, T> cp = o;
           out.puts(cp.translate(d, e));
           out.puts(vh::Ev("restore").done());
         }
       }
       for (int v : wvals) {
         for (size_t k = 0; k < o.ncells(); ++k) {
-          Obj<DIM> cp = o;
+          Obj<DIM, T> cp = o;
           auto ci = cp.coord(k);
           std::vector<int> i; for (size_t a = 0; a < DIM; ++a) {i.push_back((int)ci[a]);}
           out.puts(cp.write(i, v));
           out.puts(vh::Ev("restore").done());
         }
-        Obj<DIM> cp = o;
+        Obj<DIM, T> cp = o;
         out.puts(cp.fill(v));
         out.puts(vh::Ev("restore").done());
       }
@@ -129,12 +148,21 @@ static size_t runExec(const std::vector<std::vector<std::string>> & sc, size_t a
   return at;
 }
 
+// executions take the four variants (int / string cells, direct / through the base class) in turn
+static size_t g_variant = 0;
 template<size_t DIM>
-static void randomExec(vh::Rng & r, int maxn, int maxlen, vh::Out & out)
+static size_t runExec(const std::vector<std::vector<std::string>> & sc, size_t at, vh::Out & out)
+{
+  size_t v = g_variant++ % 4;
+  return v < 2 ? runExecT<DIM, int>(sc, at, out, v == 1) : runExecT<DIM, std::string>(sc, at, out, v == 3);
+}
+
+template<size_t DIM, class T>
+static void randomExecT(vh::Rng & r, int maxn, int maxlen, vh::Out & out, bool viaBase)
 {
   std::vector<int> n;
   for (size_t a = 0; a < DIM; ++a) {n.push_back((int)r.range(1, maxn));}
-  Obj<DIM> o(n);
+  Obj<DIM, T> o(n, viaBase);
   std::vector<int> init;
   for (size_t k = 0; k < o.ncells(); ++k) {init.push_back(1000 + (int)k);}
   o.init(init);
@@ -161,6 +189,13 @@ static void randomExec(vh::Rng & r, int maxn, int maxlen, vh::Out & out)
       out.puts(o.fill(nextv++));
     }
   }
+}
+
+template<size_t DIM>
+static void randomExec(vh::Rng & r, int maxn, int maxlen, vh::Out & out)
+{
+  size_t v = g_variant++ % 4;
+  if (v < 2) {randomExecT<DIM, int>(r, maxn, maxlen, out, v == 1);} else {randomExecT<DIM, std::string>(r, maxn, maxlen, out, v == 3);}
 }
 
 int main(int argc, char ** argv)
